@@ -78,6 +78,13 @@ def theorems_of(path):
     return [tuple(t) for t in out]
 
 
+def _tb_tail(n=6):
+    """the innermost frames of the current exception: which library call, with which generator line, raised what"""
+    import traceback
+    tb = traceback.format_exc().strip().split("\n")
+    return " | ".join(x.strip() for x in tb[-2 * n:])[:1500]
+
+
 def props_files(prop, tier="quick"):
     """module names (relative to PyEcc) of the property's theorem files: Props/Cxx*.lean always, PropsHeavy/Cxx*.lean
     (kernel computations that take many minutes) only in the thorough tier"""
@@ -284,6 +291,7 @@ def main():
     # replay mode: run just the recorded ops / predicate
     corr_cases = []
     preds = []
+    gen_failures = []
     if a.replay:
         rp = json.load(open(a.replay))
         for ln in rp.get("ops", []):
@@ -291,9 +299,17 @@ def main():
             corr_cases.append(common.Case(parts[0], parts[1:], extra=rp.get("extra", {})))
         preds = pm.predicates(rng, tier, only=rp.get("predicate")) if rp.get("predicate") else []
     else:
+        # the generators build some inputs WITH the library (signatures to aggregate, points to encode …) — on valid arguments, so on
+        # the unchanged tree they never raise; if one raises, the call it made is itself a failing input (recorded as such below)
         if driver_ok:
-            corr_cases = pm.cases(rng, tier)
-        preds = pm.predicates(rng, tier)
+            try:
+                corr_cases = pm.cases(rng, tier)
+            except Exception:  # noqa: BLE001
+                gen_failures.append(("input-construction", "building the correspondence inputs: " + _tb_tail()))
+        try:
+            preds = pm.predicates(rng, tier)
+        except Exception:  # noqa: BLE001
+            gen_failures.append(("input-construction", "building the predicate inputs: " + _tb_tail()))
 
     # 4. correspondence
     disagreements = []
@@ -325,13 +341,19 @@ def main():
             known_hits.append((k, name, detail))
         else:
             failures.append({"predicate": name, "detail": detail, "match": match})
+    for name, detail in gen_failures:
+        failures.append({"predicate": name, "detail": detail, "match": {}})
 
     something_broke = any(broken[k] for k in broken)
     # 5. verdict
     searched = 0
     if not failures and something_broke and not a.replay and hasattr(pm, "search"):
         # failing-input search: the property's own predicates, larger sample, around the breakage
-        extra = pm.search(rng, tier, broken, disagreements)
+        try:
+            extra = pm.search(rng, tier, broken, disagreements)
+        except Exception:  # noqa: BLE001
+            extra = []
+            failures.append({"predicate": "input-construction", "detail": "building the search inputs: " + _tb_tail(), "match": {}})
         res = common.run_preds(extra)
         searched = len(res)
         for name, ok, detail, match in res:
@@ -431,4 +453,13 @@ def main():
 
 
 if __name__ == "__main__":
-    sys.exit(main())
+    try:
+        rc = main()
+    except SystemExit:
+        raise
+    except Exception:  # noqa: BLE001  — a crash of the machinery is never reported as a verdict about the property
+        import traceback
+        traceback.print_exc()
+        print("INFRASTRUCTURE: the check itself crashed (see the traceback); no verdict", file=sys.stderr)
+        rc = 2
+    sys.exit(rc)
